@@ -8,6 +8,7 @@ import (
 	"testing"
 	"time"
 
+	mail "github.com/wneessen/go-mail"
 	"github.com/wneessen/go-mail/smtp"
 
 	"verif/sim/refsmtpd"
@@ -34,6 +35,15 @@ type C15Scenario struct {
 	// Via: "" = mail.Client.DialWithContext; "smtp" = smtp.Client.Auth called directly (the
 	// outcome is what Auth returns, with nothing of the mail package after it)
 	Via string `json:"via,omitempty"`
+	// Prime: what happened in this process before the judged exchange. "other": another Client
+	// authenticated honestly with the RIGHT password against the same account (same user, salt,
+	// iteration count). "same": the judged Client itself did, on an earlier connection, and the
+	// adversary has recorded that session.
+	Prime string `json:"prime,omitempty"`
+	// WrongPw: the judged client holds a password that is not the account's. The adversary's
+	// "valid" messages are computed with the account's password, so for this client none of
+	// them is valid and no path may end in success.
+	WrongPw bool `json:"wrongPw,omitempty"`
 }
 
 type c15 struct{}
@@ -50,6 +60,17 @@ type c15Variant struct{ mech, tls, via string }
 
 var c15Variants = []c15Variant{{"SCRAM-SHA-256", "", ""}, {"SCRAM-SHA-1", "", "smtp"}, {"SCRAM-SHA-256-PLUS", "1.3", "smtp"}, {"SCRAM-SHA-1-PLUS", "1.2", ""},
 	{"SCRAM-SHA-256", "", "smtp"}, {"SCRAM-SHA-1", "", ""}, {"SCRAM-SHA-256-PLUS", "1.2", ""}, {"SCRAM-SHA-1-PLUS", "1.3", "smtp"}, {"SCRAM-SHA-256-PLUS", "1.3", ""}, {"SCRAM-SHA-1-PLUS", "1.2", "smtp"}}
+
+// the histories of Prime: variants and the (smaller) alphabet their scripts are enumerated over
+var c15PrimedAlphabet = []string{"first-ok", "final-ok", "final-lastconn", "final-prev", "empty", "235", "hangup"}
+
+var c15Primed = []struct {
+	mech, tls, via, prime string
+	wrongPw               bool
+}{
+	{"SCRAM-SHA-256", "", "", "other", true}, {"SCRAM-SHA-1", "", "smtp", "other", true}, {"SCRAM-SHA-256-PLUS", "1.3", "", "other", true},
+	{"SCRAM-SHA-256", "", "", "same", false}, {"SCRAM-SHA-1", "", "", "same", false}, {"SCRAM-SHA-1-PLUS", "1.2", "", "same", false},
+}
 
 func c15Count(depth int) int {
 	n, p := 0, 1
@@ -87,7 +108,28 @@ func (p *c15) Gen(seed uint64, i int, tier string) (any, bool) {
 	per := c15Count(depth)
 	v := i / per
 	if v >= len(variants) {
-		return nil, false
+		// histories: something happened in this process before the judged exchange
+		j := i - per*len(variants)
+		nAlpha := len(c15PrimedAlphabet)
+		perP := nAlpha + nAlpha*nAlpha + nAlpha*nAlpha*nAlpha
+		pv := j / perP
+		if pv >= len(c15Primed) {
+			return nil, false
+		}
+		k := j % perP
+		var script []string
+		switch {
+		case k < nAlpha:
+			script = []string{c15PrimedAlphabet[k]}
+		case k < nAlpha+nAlpha*nAlpha:
+			k -= nAlpha
+			script = []string{c15PrimedAlphabet[k/nAlpha], c15PrimedAlphabet[k%nAlpha]}
+		default:
+			k -= nAlpha + nAlpha*nAlpha
+			script = []string{c15PrimedAlphabet[k/(nAlpha*nAlpha)], c15PrimedAlphabet[k/nAlpha%nAlpha], c15PrimedAlphabet[k%nAlpha]}
+		}
+		pr := c15Primed[pv]
+		return &C15Scenario{Mech: pr.mech, TLSVer: pr.tls, Via: pr.via, Prime: pr.prime, WrongPw: pr.wrongPw, Script: script, Sched: sim.Derive(seed, 15, uint64(i))}, true
 	}
 	// sequences that continue after a final reply (235/535) or a hang-up are the same path as their prefix
 	sc := &C15Scenario{Mech: variants[v].mech, TLSVer: variants[v].tls, Via: variants[v].via, Script: c15Unrank(i%per, depth), Sched: sim.Derive(seed, 15, uint64(i))}
@@ -111,6 +153,9 @@ func (p *c15) Exec(t *testing.T, scAny any) Outcome {
 	cfg := ClientCfg{TLSPolicy: "none", AuthType: sc.Mech, User: "user-c15", Pass: "correct horse battery staple"}
 	srv := refsmtpd.Config{Caps: []string{"8BITMIME", authCaps(allMechs...)},
 		Auth: refsmtpd.AuthCfg{User: "user-c15", Pass: "correct horse battery staple", Salt: []byte("NaCl-c15-salt"), Iter: 8, NonceSuffix: "SrvNonceC15", Adversary: sc.Script}}
+	if sc.Prime != "" {
+		srv.Auth.AdversaryFromConn = 2
+	}
 	if plus {
 		cfg.TLSPolicy = "mandatory"
 		srv.Caps = append(srv.Caps, "STARTTLS")
@@ -121,6 +166,26 @@ func (p *c15) Exec(t *testing.T, scAny any) Outcome {
 	res := RunSim(t, sc.Sched, sim.Policy{Kind: "random"}, 0, time.Hour, func(k *sim.Kernel) (func(), func()) {
 		env = &NetEnv{K: k, Srv: refsmtpd.New(k, srv, TLSMat), Host: cfg.host()}
 		return func() {
+			var primed *mail.Client
+			if sc.Prime != "" {
+				// the earlier, honest session (the account's password is the right one there)
+				pc, err := BuildClient(cfg, env.Dial, nil)
+				if err != nil {
+					out.Infra = err.Error()
+					return
+				}
+				if err := pc.DialWithContext(context.Background()); err != nil {
+					out.Infra = "the honest first session failed: " + err.Error()
+					return
+				}
+				_ = pc.Close()
+				if sc.Prime == "same" {
+					primed = pc
+				}
+			}
+			if sc.WrongPw {
+				cfg.Pass = "not the password of this account"
+			}
 			if sc.Via == "smtp" {
 				conn, _ := env.Dial(context.Background(), "tcp", "mx.sim.example:25")
 				sc2, err := smtp.NewClient(conn, cfg.host())
@@ -160,10 +225,13 @@ func (p *c15) Exec(t *testing.T, scAny any) Outcome {
 				_ = sc2.Close()
 				return
 			}
-			c, err := BuildClient(cfg, env.Dial, nil)
-			if err != nil {
-				out.Infra = err.Error()
-				return
+			c := primed
+			if c == nil {
+				var err error
+				if c, err = BuildClient(cfg, env.Dial, nil); err != nil {
+					out.Infra = err.Error()
+					return
+				}
 			}
 			call = env.Call("DialWithContext", func() error { return c.DialWithContext(context.Background()) })
 			if call.Err == nil && call.Panic == nil && call.Returned {
@@ -197,6 +265,14 @@ func (p *c15) Exec(t *testing.T, scAny any) Outcome {
 		return out
 	}
 	tr := traces[0]
+	if sc.WrongPw {
+		// computed with the account's password: not valid for a client that holds another one
+		for i := range tr {
+			if tr[i].Sym == "final-ok" {
+				tr[i].Sym, tr[i].Valid = "final-for-the-accounts-password", false
+			}
+		}
+	}
 	var played []string
 	for _, s := range tr {
 		played = append(played, s.Sym)
@@ -247,7 +323,7 @@ func (p *c15) Exec(t *testing.T, scAny any) Outcome {
 	for _, s := range tr {
 		out.stat("fault.fired.server_message_"+s.Sym, 1)
 	}
-	out.Key = sc.Mech + "/" + sc.TLSVer + "/" + sc.Via + "|" + path + "|" + fmt.Sprint(success)
+	out.Key = sc.Mech + "/" + sc.TLSVer + "/" + sc.Via + "/" + sc.Prime + fmt.Sprint(sc.WrongPw) + "|" + path + "|" + fmt.Sprint(success)
 	out.Nontrivial = len(tr) > 0
 	return out
 }
